@@ -190,7 +190,7 @@ def plan_mutator(plan, msg_proc):
         # if inserting / mutating, put new generator on the stack
         # and replace the current msg with the first element from the
         # new generator
-        if id(msg) not in msgs_seen:
+        if plan_stack[-1] is parent_plan and id(msg) not in msgs_seen:
             # Use the id as a hash, and hold a reference to the msg so that
             # it cannot be garbage collected until the plan is complete.
             msgs_seen[id(msg)] = msg
